@@ -1,4 +1,12 @@
+use lopdf::{Document, Object};
 fn main() {
-    let d = lopdf::Document::with_version("1.5");
-    println!("{}", lopdf_conform::wire::doc_to_json(&d));
+    for x in [1e-45f32, 1.0e-40, 7.0e-46, 1e-38, 191758816.0] {
+        let mut d = Document::with_version("1.5");
+        d.objects.insert((1, 0), Object::Array(vec![Object::Real(x)]));
+        d.max_id = 1;
+        let mut out = vec![];
+        d.save_to(&mut out).unwrap();
+        let l = Document::load_mem(&out).unwrap();
+        println!("{:e} -> {:?}   file: {:?}", x, l.objects.get(&(1, 0)), String::from_utf8_lossy(&out[15..90.min(out.len())]));
+    }
 }
